@@ -222,7 +222,7 @@ PROPS = {
              "(history + stop-point summary). evaluations counts histories; the 'adoptions' label counts adopted stop points.",
         assumptions=ASSUME_SIM + ["Persistence operations are atomic: a stop leaves a prefix of the operation log"],
         exhaustive_note="stop points are enumerated completely per history when its log has <= 24 (quick) / 64 (thorough) operations; histories are sampled",
-        quick=dict(engines=[rapid('^TestC02', 240, steps=25)]),
+        quick=dict(engines=[rapid('^TestC02', 640, steps=25)]),
         thorough=dict(engines=[rapid('^TestC02', 6000, shards=14, steps=40, timeout=1500)]),
     ),
     'C03': dict(
@@ -236,7 +236,7 @@ PROPS = {
              "'exactly-once-handshake-interrupted-by-stop' counts histories where a stop fell between PUBREC release and PUBCOMP.",
         assumptions=ASSUME_SIM + ["Persistence operations are atomic: a stop leaves a prefix of the operation log"],
         exhaustive_note="stop points are enumerated completely per history when its log has <= 24 (quick) / 64 (thorough) operations; histories are sampled",
-        quick=dict(engines=[rapid('^TestC03', 240, steps=25)]),
+        quick=dict(engines=[rapid('^TestC03', 640, steps=25)]),
         thorough=dict(engines=[rapid('^TestC03', 6000, shards=14, steps=40, timeout=1500)]),
     ),
     'C18': dict(
